@@ -3,7 +3,7 @@
 Proof: Properties/C07.v (decision tables of get / get_many over the model, exception classes through the generated
 error map).  Correspondence: extracted OpGet/OpGetMany::to_python against the real ones (codec harness) and the
 real SnmpSession (v1/v2c/v3, sync/async).  Oracle: the documented decision table written independently below."""
-from lib import codec, gen, vf
+from lib import codec, gen, pylayer, vf
 import ber
 
 FAMILY = {"SnmpError", "SnmpDecodeError", "SnmpEncodeError", "SnmpAuthError", "NoSuchInstance"}
@@ -162,6 +162,10 @@ def main(argv):
                     c.violation("%s/%s %s: %s" % (sc["version"], sc["mode"], st["op"], bad),
                                 {"scenario": dict(sc, steps=[st]), "observed": o, "varbinds": [(a, k, str(v)[:40]) for a, k, v in desc]},
                                 key="api-%s-table:%s" % (op, bad.split(",")[0][:30]))
+    # ---- the Python layer alone (what the socket method raises or returns is what the caller gets, save the documented
+    # remapping), on scripted socket results, against Model.PyLayer (lib/pylayer.py)
+    n_pl, d_pl = pylayer.run(c, cd.model, c.rng, 1500 if thorough else 300, "C07")
+    c.coverage["python_layer_cases"] = n_pl
     return c.finish(
         rule="%d responses through OpGet/OpGetMany::to_python (0..4 varbinds, every value kind, NULL and the three exception values, "
              "duplicate names, Report and request PDUs) and %d API calls (v1, v2c, v3 noAuth, v3 SHA+AES; sync and async); "
